@@ -72,6 +72,8 @@ def is_public(idx, fi, exported):
     if fi.cls is not None:
         if fi.cls.parent_fn is not None:
             return False
+        if fi.cls.name.startswith("_") and not fi.cls.name.startswith("__"):
+            return False  # methods of an internal class are internal API: their parameter writes are charged to their callers
         n = fi.name
         return not n.startswith("_") or (n.startswith("__") and n.endswith("__")) or n in ("_matmat", "_rmatmat")
     if fi.module.name.startswith("cola.backends.") and fi.module.name.endswith("_fns"):
